@@ -69,7 +69,8 @@
 EXTENDS Integers, Sequences, FiniteSets, TLC, Json
 
 CONSTANTS Bases,       \* sequence of records [sp |-> space, np |-> number of points of every element]
-          AtomDefs,    \* sequence of records [name, kind, b, p, s]: the leaves (see AtomExpr)
+          AtomDefs,    \* sequence of records [name, kind, b, p, s]: the leaves (see AtomExpr); operands of the binary
+                       \* operations are leaves, so a leaf may also be the sum of two base samples
           StartAtoms,  \* names of the atoms the machine may start from
           Operands,    \* names of the atoms that may be the other operand of +, *, zip
           MaxOps,      \* number of operations applied on top of the first atom
@@ -258,6 +259,8 @@ AtomExpr(a) ==
     ELSE IF a.kind = "located" THEN
         MkCustom(MkPlain(Bases[a.b].sp, [j \in 1..Len(LocUniq(a.p)) |-> [k \in 1..Len(LocSlice(a.p, j)) |-> <<SaRef(a.b, j - 1, k - 1)>>]]),
                  SaFlat(LocSlices(a.p)))
+    ELSE IF a.kind = "sum" THEN                                                      \* base p[1] + base p[2]
+        OpAdd(MkPlain(Bases[a.p[1]].sp, BasePoints(a.p[1])), MkPlain(Bases[a.p[2]].sp, BasePoints(a.p[2])))
     ELSE MkEmpty(a.s)                                                                \* Sample.empty
 AtomNamed(n) == CHOOSE k \in 1..Len(AtomDefs) : AtomDefs[k].name = n
 AtomOf(n) == AtomExpr(AtomDefs[AtomNamed(n)])
@@ -298,15 +301,18 @@ Disjoint(x, y) == SaRange(x.s) \cap SaRange(y.s) = {}
 \* the other operand of a binary operation is a leaf, on either side
 Operand(n, left, isfirst) == IF left = isfirst THEN AtomOf(n) ELSE expr
 OpsOf(n, left) == IF left THEN <<AtomOp(n), opx>> ELSE <<opx, AtomOp(n)>>
-AAdd == \E n \in Operands : \E left \in BOOLEAN :
+AAdd == /\ nops < MaxOps
+        /\ \E n \in Operands : \E left \in BOOLEAN :
           LET a == Operand(n, left, TRUE)
               b == Operand(n, left, FALSE)
           IN a.s = b.s /\ Step(OpAdd(a, b), "add", <<>>, OpsOf(n, left), <<a, b>>)
-AMul == \E n \in Operands : \E left \in BOOLEAN :
+AMul == /\ nops < MaxOps
+        /\ \E n \in Operands : \E left \in BOOLEAN :
           LET a == Operand(n, left, TRUE)
               b == Operand(n, left, FALSE)
           IN Disjoint(a, b) /\ Step(OpMul(a, b), "mul", <<>>, OpsOf(n, left), <<a, b>>)
-AZip == \E n \in Operands : \E left \in BOOLEAN :
+AZip == /\ nops < MaxOps
+        /\ \E n \in Operands : \E left \in BOOLEAN :
           LET a == Operand(n, left, TRUE)
               b == Operand(n, left, FALSE)
           IN Disjoint(a, b) /\ a.np = b.np /\ a.np >= 1 /\ Step(OpZip(a, b), "zip", <<>>, OpsOf(n, left), <<a, b>>)
